@@ -11,17 +11,19 @@ matches without advancing `state.line`) it spins forever — the model returns
 -/
 namespace MdIt
 
-/-- one line of the line tables.  The loop reads `isEmpty(line)` and `sCount[line]`; the modelled rules
+/-- one line of the line tables.  The loop reads `isEmpty(line)` (computed from the entry) and `sCount[line]`; the modelled rules
     (`MdIt/BlockRules.lean`) also read the line's characters `src[bMarks[line] : eMarks[line]]`, `tShift`,
     `bsCount` and whether a line feed follows `eMarks[line]` -/
 structure BLine where
-  empty : Bool
   sCount : Int
   text : List Char := []
   tShift : Nat := 0
   bs : Nat := 0
   hasLF : Bool := true
 deriving Repr, DecidableEq
+
+/-- `StateBlock.isEmpty(line)`: `bMarks + tShift >= eMarks` — computed, as in the code, not stored -/
+def BLine.empty (l : BLine) : Bool := decide (l.text.length ≤ l.tShift)
 
 structure BState where
   lines : List BLine       -- one entry per line, plus the trailing sentinel entry (empty)
